@@ -73,7 +73,9 @@ WellFormed == \A i \in 1..Len(d.fields) : d.fields[i].p \in Ps
 BoundField(f) == f.t \in MentionsP /\ f.t \notin Skipped /\ f.t \notin SelfRef
 AssocBound(p) ==      \* is `p::A: TypeInfo` in the where-clause
   IF "custom" \in d.mods THEN \E i \in 1..Len(d.fields) : d.fields[i].p = p /\ d.fields[i].t \in NeedsCfg
-  ELSE \E i \in 1..Len(d.fields) : d.fields[i].p = p /\ d.fields[i].t \in {"assoc", "qassoc"}      \* bound on the member type itself
+  ELSE \E i \in 1..Len(d.fields) : d.fields[i].p = p /\ d.fields[i].t \in {"assoc", "qassoc", "selfassoc"}
+       \* bound on the member type itself; for a self-referential member (not bound as a whole) the associated types
+       \* of parameters mentioned inside it are bound on their own (fix cfbc6c9; before it this was the known finding)
 VecAssocBound(p) == "custom" \notin d.mods /\ \E i \in 1..Len(d.fields) : d.fields[i].p = p /\ d.fields[i].t = "vecassoc"
 (* what the body needs, member by member, and whether the where-clause provides it *)
 MemberOK(f) ==
@@ -86,10 +88,9 @@ MemberOK(f) ==
     [] f.t = "compactassoc" -> TRUE                                         \* the member bound must give HasCompact AND TypeInfo
     [] f.t \in {"assoc", "qassoc"} -> AssocBound(f.p)
     [] f.t = "vecassoc" -> AssocBound(f.p) \/ VecAssocBound(f.p)
-    [] f.t = "selfassoc" -> AssocBound(f.p)                                 \* only if some OTHER member or bounds(..) binds p::A
+    [] f.t = "selfassoc" -> AssocBound(f.p)                                 \* p::A inside the self-referential member is bound on its own
 Predicted == \A i \in 1..Len(d.fields) : MemberOK(d.fields[i])
 Emit == WellFormed => PrintT(<<"GEN", ToJson([np |-> d.np, fields |-> d.fields, mods |-> SetToSeq(d.mods), skip |-> SetToSeq(SkipSet), predicted |-> Predicted])>>)
-\* design-level statement: apart from the one construction the model predicts to fail (an associated type
-\* mentioned only inside a self-referential member), the generated where-clause is sufficient
-Sufficient == WellFormed => (Predicted \/ \E i \in 1..Len(d.fields) : d.fields[i].t = "selfassoc" /\ ~AssocBound(d.fields[i].p))
+\* design-level statement: the generated where-clause is sufficient for every definition of the grammar
+Sufficient == WellFormed => Predicted
 =============================================================================
